@@ -45,6 +45,11 @@ pub enum UClass {
     GlobalHw,
     /// global prefix + 0:ff:fe00:XXXX
     Global16,
+    /// a prefix that only looks link-local (inside fe80::/10 but not fe80::/64, or next to it) + the
+    /// three IID forms: none of the stateless elisions applies, the address travels in full
+    NearHw,
+    Near16,
+    Near64,
 }
 
 impl UClass {
@@ -56,11 +61,49 @@ impl UClass {
             UClass::Global => "gl-64",
             UClass::GlobalHw => "gl-hw",
             UClass::Global16 => "gl-16",
+            UClass::NearHw => "near-ll-hw",
+            UClass::Near16 => "near-ll-16",
+            UClass::Near64 => "near-ll-64",
         }
     }
-    fn is_ll(&self) -> bool {
-        matches!(self, UClass::LlHw | UClass::Ll16 | UClass::Ll64)
+    fn is_near(&self) -> bool {
+        matches!(self, UClass::NearHw | UClass::Near16 | UClass::Near64)
     }
+    /// 0 link-local, 1 the configured global prefix, 2 the look-alike prefix
+    fn net(&self) -> u8 {
+        match self {
+            UClass::LlHw | UClass::Ll16 | UClass::Ll64 => 0,
+            UClass::Global | UClass::GlobalHw | UClass::Global16 => 1,
+            _ => 2,
+        }
+    }
+}
+
+const ALL_UCLASSES: [UClass; 9] =
+    [UClass::LlHw, UClass::Ll16, UClass::Ll64, UClass::Global, UClass::GlobalHw, UClass::Global16, UClass::NearHw, UClass::Near16, UClass::Near64];
+
+/// A /64 that shares its leading bits with fe80::/64 without being it.
+fn near_ll_prefix(rng: &mut Rng) -> [u8; 8] {
+    let mut p = LL;
+    match rng.below(6) {
+        0 => p[7] = 1,                                  // fe80:0:0:1::/64
+        1 => p = [0xfe, 0xbf, 0xff, 0xff, 0xff, 0xff, 0xff, 0xff], // the far end of fe80::/10
+        2 => {
+            // one bit of bits 10..63
+            let b = rng.urange(10, 63);
+            p[b / 8] |= 0x80 >> (b % 8);
+        }
+        3 => {
+            p[1] = 0x80 | (rng.u8() & 0x3f);
+            for x in p[2..].iter_mut() {
+                *x = rng.u8();
+            }
+            p[7] |= 1;
+        }
+        4 => p[1] = 0xc0, // fec0::/64 (former site-local)
+        _ => p[0] = 0xfc, // fc80::/64
+    }
+    p
 }
 
 fn join(p: &[u8; 8], i: &[u8; 8]) -> [u8; 16] {
@@ -97,7 +140,9 @@ fn uaddr(c: UClass, hw: &LlAddr, prefix: &[u8; 8], rng: &mut Rng) -> [u8; 16] {
         UClass::Ll64 => join(&LL, &rnd64(rng)),
         UClass::Global => join(prefix, &rnd64(rng)),
         UClass::GlobalHw => join(prefix, &hwiid),
-        UClass::Global16 => join(prefix, &rnd16(rng)),
+        UClass::Global16 | UClass::Near16 => join(prefix, &rnd16(rng)),
+        UClass::NearHw => join(prefix, &hwiid),
+        UClass::Near64 => join(prefix, &rnd64(rng)),
     }
 }
 
@@ -993,21 +1038,22 @@ fn gen_scenario_with(rng: &mut Rng, proto: Proto, max_payload: usize, o: ScOpts)
     let b_short = multicast && rng.chance(1, 3);
     let hw_a = if a_short { LlAddr::Short([rng.u8() & 0x7f, rng.u8()]) } else { LlAddr::Ext(HW_A) };
     let hw_b = if b_short { LlAddr::Short([0x80 | rng.u8() & 0x7e, rng.u8()]) } else { LlAddr::Ext(HW_B) };
-    let classes = [UClass::LlHw, UClass::Ll16, UClass::Ll64, UClass::Global, UClass::GlobalHw, UClass::Global16];
+    let classes = ALL_UCLASSES;
     let sc = *rng.pick(&classes);
-    // unicast: both ends in the same network (both link-local or both in PREFIX)
+    // unicast: both ends in the same network (both link-local, both in PREFIX or both in the look-alike /64)
     let dc = if multicast {
         *rng.pick(&classes)
     } else {
         loop {
             let c = *rng.pick(&classes);
-            if c.is_ll() == sc.is_ll() {
+            if c.net() == sc.net() {
                 break c;
             }
         }
     };
-    let src = uaddr(sc, &hw_a, &PREFIX, rng);
-    let baddr = uaddr(dc, &hw_b, &PREFIX, rng);
+    let near = near_ll_prefix(rng);
+    let src = uaddr(sc, &hw_a, if sc.is_near() { &near } else { &PREFIX }, rng);
+    let baddr = uaddr(dc, &hw_b, if dc.is_near() { &near } else { &PREFIX }, rng);
     let (dst, dclass, groups) = if multicast {
         let mc = *rng.pick(&[MClass::AllNodes, MClass::M8, MClass::M32, MClass::M48, MClass::Full]);
         let g = maddr(mc, rng);
@@ -1900,7 +1946,7 @@ pub fn recv_case(idx: u64, rng: &mut Rng, ctx: &Ctx) -> CaseOut {
     rng.shuffle(&mut prefixes);
     prefixes.truncate(rng.urange(1, 4));
     let ctxt = smol_ctx_table(&prefixes);
-    let classes = [UClass::LlHw, UClass::Ll16, UClass::Ll64, UClass::Global, UClass::GlobalHw, UClass::Global16];
+    let classes = ALL_UCLASSES;
     let pick_prefix = |rng: &mut Rng| -> [u8; 8] {
         if rng.chance(1, 6) {
             PREFIX_X
@@ -1910,8 +1956,8 @@ pub fn recv_case(idx: u64, rng: &mut Rng, ctx: &Ctx) -> CaseOut {
     };
     let sc_class = *rng.pick(&classes);
     let dc_class = *rng.pick(&classes);
-    let sp = pick_prefix(rng);
-    let dp = pick_prefix(rng);
+    let sp = if sc_class.is_near() { near_ll_prefix(rng) } else { pick_prefix(rng) };
+    let dp = if dc_class.is_near() { near_ll_prefix(rng) } else { pick_prefix(rng) };
     let src = uaddr(sc_class, &s_hw, &sp, rng);
     let baddr = uaddr(dc_class, &b_hw, &dp, rng);
     // (a TCP SYN to a multicast address is not something a receiver accepts)
